@@ -20,8 +20,9 @@
    concurrent access to the same bytes is C18's subject. *)
 From Coq Require Import Arith.
 From JT.Base Require Import Prelude GoSlice.
-From JT.Model Require Import Frame Mem.
-From JT.Proofs Require Import Mem_proofs.
+From JT.Model Require Import Frame Mem MemAbs.
+From JT.Model Require Unpack Subpkg.
+From JT.Proofs Require Import Mem_proofs Mem_refine.
 
 (* the content of a delivered message - raw frame bytes, body bytes, BCD phone bytes - is the same
    in every later state as right after its delivery: for every history of reads (any bytes, any
@@ -92,6 +93,26 @@ Theorem C09_reassembly_from_own_bytes : forall h r m h' r' m' cm,
     d_raw cm = d_body cm /\ d_body m' = d_body cm /\ d_complete cm = true /\ d_hdr cm = d_hdr m.
 Proof. exact complete_pack_merged. Qed.
 Print Assumptions C09_reassembly_from_own_bytes.
+
+(* refinement: read by read, the memory-level machine delivers exactly what the value-level parser
+   model delivers (Model/Unpack.v + Model/Subpkg.v, the model of C04 / C05 / C14) - each delivered
+   message read in the heap right after its read (pmsg_of: TerminalData, header values, Body,
+   SubcontractComplete) equals the value-level message, and the returned errors are the same; for
+   every history of reads that fit the buffer and every answer of the reallocation oracle.  With
+   C09_stable the value-level content is what every holder keeps seeing: C05's "body = the
+   concatenation of the packet bodies" is a statement about the bytes in memory at any later time *)
+Theorem C09_refines_value_model : forall bufsz now reads,
+  Forall (fun r => (length (fst (fst r)) <= bufsz)%nat) reads ->
+  run_mem bufsz (init bufsz) reads = run_core now Subpkg.pst0 (map (fun r => fst (fst r)) reads).
+Proof. exact run_refines_init. Qed.
+Print Assumptions C09_refines_value_model.
+
+(* run_core's step is packageParse.parse of Model/Subpkg.v while the housekeeping pass (C14) has
+   nothing to do, i.e. while no transfer is 5 s idle or 60 s old *)
+Theorem C09_core_is_parse : forall now vs d, Subpkg.fresh now (Subpkg.ps_x vs) ->
+  Subpkg.parse now vs d = parse_core now vs d.
+Proof. exact parse_core_parse. Qed.
+Print Assumptions C09_core_is_parse.
 
 (* ---- the model contains Go's aliasing: without either repair the property fails ---- *)
 (* without bytes.Clone in the fast path: two escape-free frames in two reads - the first message
